@@ -1,1 +1,747 @@
-"""placeholder"""
+"""Narrow clauses: R-PERUP (C03), R-BOUND (C04), R-LOCAL (C11), R-PLACEHOLDER / R-SIB-JOB / R-SERV (C17),
+R-SEL / R-IDFLOW (C19), R-THREAD (C20) (DESIGN §5.C, §5.F)."""
+import ast
+
+from . import rule
+from ..frontend import AnalysisError, norm, is_property
+from ..report import Finding, RuleResult
+from ..interp import Cx
+
+JOB = "core/usage/job.py"
+NW = "core/hardware/network.py"
+SB = "core/hardware/server_base.py"
+ST = "core/hardware/storage.py"
+TB = "builders/time_builders.py"
+MU = "abstract_modeling_classes/modeling_update.py"
+
+
+def _calls(node):
+    out = [n for n in ast.walk(node) if isinstance(n, ast.Call)]
+    out.sort(key=lambda c: (c.lineno, c.col_offset))
+    return out
+
+
+# ---------------------------------------------------------------------------------------------- R-PERUP
+@rule("R-PERUP")
+def r_perup(E):
+    pm = E.pm
+    res = RuleResult("R-PERUP", "each per-usage-pattern dict of a job is written by a loop over self.usage_patterns keyed "
+                                "by the loop variable, and each across-patterns sum reads the matching dict over the same "
+                                "collection; the network reads a job's entry only for patterns they share")
+    rel, cls = pm.find_function(JOB, "JobBase")
+    ms = {f.name: f for f in cls.body if isinstance(f, ast.FunctionDef)}
+    writers = [m for m in ms if m.startswith("update_") and m.endswith("_per_usage_pattern")]
+    for m in sorted(writers):
+        fn = ms[m]
+        attr = m[len("update_"):]
+        res.instances += 1
+        init = fn.body[0] if fn.body else None
+        loop = next((s for s in fn.body if isinstance(s, ast.For)), None)
+        ok = isinstance(init, ast.Assign) and norm(init.targets[0]) == f"self.{attr}" and \
+            norm(init.value) == "ExplainableObjectDict()" and loop is not None and \
+            norm(loop.iter) == "self.usage_patterns" and isinstance(loop.target, ast.Name)
+        if ok:
+            v = loop.target.id
+            stores = [s for s in ast.walk(loop) if isinstance(s, ast.Assign) and isinstance(s.targets[0], ast.Subscript)
+                      and norm(s.targets[0].value) == f"self.{attr}"]
+            ok = len(stores) == 1 and norm(stores[0].targets[0].slice) == v and stores[0] in loop.body
+            if ok:
+                # the helper that computes the entry receives the same pattern
+                for c in _calls(stores[0].value):
+                    names = [norm(a) for a in c.args]
+                    if isinstance(c.func, ast.Attribute) and norm(c.func.value) == "self" and \
+                            c.func.attr.startswith("compute_") and v not in names:
+                        ok = False
+                for sub in ast.walk(loop):
+                    if isinstance(sub, ast.Subscript) and "per_usage_pattern" in norm(sub.value) and \
+                            isinstance(sub.ctx, ast.Load) and norm(sub.slice) != v:
+                        ok = False
+        if not ok:
+            res.findings.append(Finding(
+                "R-PERUP", f"JobBase.{m} writer shape",
+                f"JobBase.{m} no longer (re)builds self.{attr} with exactly one entry per pattern of self.usage_patterns, "
+                f"keyed by that pattern: occurrences are lost, duplicated or filed under another pattern", rel, fn.lineno,
+                f"JobBase.{m}"))
+        elif len(res.samples) < 3:
+            res.samples.append({"writer": f"JobBase.{m}", "collection": "self.usage_patterns", "keyed_by": "loop variable"})
+    # readers
+    helper = ms.get("sum_calculated_attribute_across_usage_patterns")
+    res.instances += 1
+    hok = False
+    if helper is not None:
+        loop = next((s for s in helper.body if isinstance(s, ast.For)), None)
+        if loop is not None and norm(loop.iter) == "self.usage_patterns" and isinstance(loop.target, ast.Name):
+            v = loop.target.id
+            p = helper.args.args[1].arg
+            hok = any(isinstance(s, ast.AugAssign) and isinstance(s.op, ast.Add)
+                      and norm(s.value) == f"getattr(self, {p})[{v}]" for s in loop.body)
+    if not hok:
+        res.findings.append(Finding("R-PERUP", "JobBase.sum_calculated_attribute_across_usage_patterns shape",
+                                    "the across-patterns sum no longer adds the entry of every pattern of "
+                                    "self.usage_patterns exactly once", rel, helper.lineno if helper else cls.lineno,
+                                    "JobBase.sum_calculated_attribute_across_usage_patterns"))
+    for m in sorted(ms):
+        if m.startswith("update_") and m.endswith("_across_usage_patterns"):
+            res.instances += 1
+            stem = m[len("update_"):-len("_across_usage_patterns")]
+            want = f"{stem}_per_usage_pattern"
+            c = next((c for c in _calls(ms[m]) if norm(c.func) == "self.sum_calculated_attribute_across_usage_patterns"), None)
+            tgt = next((s for s in ms[m].body if isinstance(s, ast.Assign)), None)
+            if c is None or not c.args or not isinstance(c.args[0], ast.Constant) or c.args[0].value != want \
+                    or tgt is None or norm(tgt.targets[0]) != f"self.{stem}_across_usage_patterns":
+                res.findings.append(Finding(
+                    "R-PERUP", f"JobBase.{m} reads {c.args[0].value if c is not None and c.args and isinstance(c.args[0], ast.Constant) else '?'}",
+                    f"JobBase.{m} must sum self.{want}; it sums another per-pattern dict (or writes another attribute)",
+                    rel, ms[m].lineno, f"JobBase.{m}"))
+            elif want not in [w[len("update_"):] for w in writers]:
+                res.findings.append(Finding("R-PERUP", f"JobBase.{m} no writer", f"no rule writes self.{want}", rel,
+                                            ms[m].lineno, f"JobBase.{m}"))
+    # network: a job's entry is read only for patterns the job and the network share
+    rel2, nf = pm.find_function(NW, "Network.update_energy_footprint")
+    res.instances += 1
+    t = norm(nf)
+    if "for up in job.usage_patterns if up in self.usage_patterns" not in t or \
+            "job.hourly_data_transferred_per_usage_pattern[up]" not in t:
+        res.findings.append(Finding(
+            "R-PERUP", "Network.update_energy_footprint shared patterns",
+            "the network must read a job's per-pattern data only for the usage patterns that use both the job and "
+            "this network (a job can serve patterns on other networks): otherwise KeyError or traffic counted on the "
+            "wrong network", rel2, nf.lineno, "Network.update_energy_footprint"))
+    res.floor = 10
+    return res
+
+
+# ---------------------------------------------------------------------------------------------- R-BOUND
+GE = "GE_RAW"        # series >= raw need at every hour
+GA = "GE_ALL"        # scalar >= every hour of the raw need
+PRESERVE = {"copy", "to", "set_label", "generate_explainable_object_with_logical_dependency", "abs"}
+
+
+class Bound:
+    def __init__(self, fn):
+        self.fn = fn
+        self.defs = {}
+        for n in ast.walk(fn):
+            if isinstance(n, ast.Assign) and len(n.targets) == 1 and isinstance(n.targets[0], ast.Name):
+                self.defs.setdefault(n.targets[0].id, []).append(n)
+        self.problems = []
+
+    def guard_for(self, node):
+        """is `node` dominated by `if <GE_ALL expr> > self.fixed_nb_of_instances: raise`?"""
+        x = node
+        while x is not None and x is not self.fn:
+            par = getattr(x, "_parent", None)
+            if isinstance(par, ast.If) and x in par.orelse:
+                t = par.test
+                if isinstance(t, ast.Compare) and len(t.ops) == 1 and isinstance(t.ops[0], (ast.Gt, ast.GtE)) \
+                        and norm(t.comparators[0]) == "self.fixed_nb_of_instances" \
+                        and all(isinstance(s, ast.Raise) for s in par.body):
+                    if self.ev(t.left, par) == GA:
+                        return True
+            x = par
+        return False
+
+    def ev(self, e, at, depth=0):
+        if depth > 15:
+            return "?"
+        EV = lambda x: self.ev(x, at, depth + 1)
+        if isinstance(e, ast.Attribute) and norm(e) == "self.raw_nb_of_instances":
+            return GE
+        if isinstance(e, ast.Attribute) and e.attr in ("value", "magnitude", "values"):
+            return EV(e.value)
+        if isinstance(e, ast.Name):
+            ds = [d for d in self.defs.get(e.id, []) if d.lineno < getattr(at, "lineno", 10 ** 9)
+                  and self._same_branch(d, at)]
+            if not ds:
+                return "?"
+            d = max(ds, key=lambda x: x.lineno)        # reaching definition on this branch
+            return self.ev(d.value, d, depth + 1)
+        if isinstance(e, ast.Call):
+            f = e.func
+            if isinstance(f, ast.Attribute):
+                if f.attr in PRESERVE:
+                    return EV(f.value)
+                if f.attr == "ceil":
+                    return EV(f.value)                    # ceil(x) >= x
+                if f.attr == "max":
+                    return GA if EV(f.value) == GE else "?"
+                if f.attr in ("mean", "min", "sum"):
+                    r = EV(f.value)
+                    if r == GE:
+                        self.problems.append(f".{f.attr}() of the raw need is not >= every hour of it")
+                    return "BAD"
+                if norm(f) in ("np.full",) and len(e.args) >= 2:
+                    fill = e.args[1]
+                    if "self.fixed_nb_of_instances" in norm(fill):
+                        return GE if self.guard_for(e) else "UNGUARDED"
+                    return "?"
+                if norm(f) in ("pd.DataFrame", "pint_pandas.PintArray"):
+                    a = e.args[0] if e.args else None
+                    if isinstance(a, ast.Dict) and a.values:
+                        return EV(a.values[0])
+                    return EV(a) if a is not None else "?"
+            if isinstance(f, ast.Name) and f.id in ("ExplainableHourlyQuantities",) and e.args:
+                return EV(e.args[0])
+            if isinstance(f, ast.Name) and f.id == "EmptyExplainableObject":
+                return "EMPTY"
+            return "?"
+        if isinstance(e, ast.BinOp) and isinstance(e.op, ast.Mult):
+            # <scalar >= every hour> * np.ones(len(raw))
+            l, r = e.left, e.right
+            for a, b in ((l, r), (r, l)):
+                if norm(b).startswith("np.ones(len(self.raw_nb_of_instances))") and EV(a) == GA:
+                    return GE
+            return "?"
+        return "?"
+
+    def _same_branch(self, d, at):
+        """definition d is on the path to `at`: not in a sibling branch of an enclosing if"""
+        x = d
+        while x is not None and x is not self.fn:
+            par = getattr(x, "_parent", None)
+            if isinstance(par, ast.If):
+                in_body = any(x is s or self._contains(s, x) for s in par.body)
+                at_in_if = self._contains(par, at)
+                if at_in_if:
+                    at_in_body = any(self._contains(s, at) or s is at for s in par.body)
+                    if in_body != at_in_body:
+                        return False
+            x = par
+        return True
+
+    @staticmethod
+    def _contains(root, node):
+        return any(n is node for n in ast.walk(root))
+
+
+@rule("R-BOUND")
+def r_bound(E):
+    pm = E.pm
+    res = RuleResult("R-BOUND", "order-domain bounds: the number of instances written by every sizing branch is >= the raw "
+                                "need at every hour (ceil, copy, constant >= peak, or a user-fixed count guarded by a "
+                                "raising comparison), and active storage instances are capped by the provisioned ones")
+    targets = [(SB, "ServerBase.autoscaling_update_nb_of_instances"), (SB, "ServerBase.serverless_update_nb_of_instances"),
+               (SB, "ServerBase.on_premise_update_nb_of_instances"), (ST, "Storage.update_nb_of_instances")]
+    for suffix, q in targets:
+        rel, fn = pm.find_function(suffix, q)
+        B = Bound(fn)
+        writes = [n for n in ast.walk(fn) if isinstance(n, ast.Assign) and norm(n.targets[0]) == "self.nb_of_instances"]
+        if not writes:
+            res.undecided.append(f"{q}: no write of self.nb_of_instances")
+        for w in writes:
+            # enumerate the definitions that can reach this write (one instance per reaching branch)
+            srcs = [w.value]
+            if isinstance(w.value, ast.Call):
+                base = w.value
+                while isinstance(base, ast.Call) and isinstance(base.func, ast.Attribute) and base.func.attr in PRESERVE:
+                    base = base.func.value
+                if isinstance(base, ast.Name):
+                    ds = [d for d in B.defs.get(base.id, []) if d.lineno < w.lineno and B._same_branch(d, w)]
+                    if len(ds) > 1:
+                        srcs = [d.value for d in ds]
+                        ats = ds
+                    else:
+                        ats = [w]
+                else:
+                    ats = [w]
+            else:
+                ats = [w]
+            for src, at in zip(srcs, ats):
+                res.instances += 1
+                B.problems = []
+                v = B.ev(src, at)
+                key = f"{q} :: {norm(src)[:90]}"
+                if v in (GE, "EMPTY"):
+                    if len(res.samples) < 6:
+                        res.samples.append({"branch": q, "value": norm(src)[:70], "bound": ">= raw need" if v == GE else "empty when the need is empty"})
+                elif v == "BAD":
+                    res.findings.append(Finding("R-BOUND", key, f"{q}: {'; '.join(B.problems)}: the server is "
+                                                f"under-provisioned at peak hours", rel, at.lineno, q))
+                elif v == "UNGUARDED":
+                    res.findings.append(Finding(
+                        "R-BOUND", key, f"{q} uses the user-fixed instance count without a dominating "
+                        f"`if <ceil of the peak need> > self.fixed_nb_of_instances: raise`: a fixed count below the need "
+                        f"silently under-provisions", rel, at.lineno, q))
+                elif v == GA:
+                    res.findings.append(Finding("R-BOUND", key, f"{q} writes a scalar where an hourly series is expected",
+                                                rel, at.lineno, q))
+                else:
+                    res.undecided.append(f"{q}: cannot bound {norm(src)[:80]}")
+    # active <= provisioned
+    rel, fn = pm.find_function(ST, "Storage.update_nb_of_active_instances")
+    res.instances += 1
+    w = next((n for n in ast.walk(fn) if isinstance(n, ast.Assign) and norm(n.targets[0]) == "self.nb_of_active_instances"), None)
+    ok = False
+    if w is not None:
+        B = Bound(fn)
+        e = w.value
+        while isinstance(e, ast.Call) and isinstance(e.func, ast.Attribute) and e.func.attr in PRESERVE:
+            e = e.func.value
+        if isinstance(e, ast.Name):
+            ds = B.defs.get(e.id, [])
+            e = ds[-1].value if ds else e
+        if isinstance(e, ast.Call) and isinstance(e.func, ast.Attribute) and e.func.attr == "np_compared_with" \
+                and len(e.args) == 2 and norm(e.args[0]) in ("self.nb_of_instances.abs()", "self.nb_of_instances") \
+                and isinstance(e.args[1], ast.Constant) and e.args[1].value == "min":
+            ok = True
+    if not ok:
+        res.findings.append(Finding(
+            "R-BOUND", "Storage.update_nb_of_active_instances cap",
+            "the number of active storage instances is no longer capped by np_compared_with(self.nb_of_instances, 'min'): "
+            "more instances can be active than are provisioned (idle count negative)", rel, fn.lineno, fn.name))
+    res.floor = 7
+    return res
+
+
+# ---------------------------------------------------------------------------------------------- R-LOCAL
+@rule("R-LOCAL")
+def r_local(E):
+    pm = E.pm
+    res = RuleResult("R-LOCAL", "the local-time series UsagePattern.hourly_usage_journey_starts is read by exactly one "
+                                "rule — the UTC converter, with the pattern's country time zone — and by the simulation "
+                                "filter, which localises it explicitly; every other rule reads the UTC attribute")
+    for (c, x), cx in E.contexts().items():
+        if cx is None:
+            continue
+        for (d, y, s) in cx.reads:
+            if y == "hourly_usage_journey_starts":
+                res.instances += 1
+                owner, fn = pm.find_method(c, "update_" + x)
+                if (c, x) != ("UsagePattern", "utc_hourly_usage_journey_starts"):
+                    res.findings.append(Finding(
+                        "R-LOCAL", f"{c}.update_{x} reads local time",
+                        f"{c}.update_{x} reads the local-time series hourly_usage_journey_starts directly: usage patterns "
+                        f"in different time zones are combined without conversion to UTC", pm.path_of(owner), fn.lineno,
+                        f"{owner}.update_{x}"))
+    rel, fn = pm.find_function("core/usage/usage_pattern.py", "UsagePattern.update_utc_hourly_usage_journey_starts")
+    res.instances += 1
+    t = norm(fn)
+    if "self.hourly_usage_journey_starts.convert_to_utc(local_timezone=self.country.timezone)" not in t and \
+            "self.hourly_usage_journey_starts.convert_to_utc(self.country.timezone)" not in t:
+        res.findings.append(Finding("R-LOCAL", "UsagePattern.update_utc_hourly_usage_journey_starts conversion",
+                                    "the UTC series is no longer hourly_usage_journey_starts.convert_to_utc(<the pattern's "
+                                    "country time zone>)", rel, fn.lineno, fn.name))
+    for q in ("ModelingUpdate.compute_hourly_quantities_to_filter", "ModelingUpdate.filter_hourly_quantities_to_filter"):
+        rel, fn = pm.find_function(MU, q)
+        res.instances += 1
+        t = norm(fn)
+        if not (("tzinfo is None" in t or "index.tz is None" in t) and "country.timezone.value" in t):
+            res.findings.append(Finding("R-LOCAL", f"{q} naive index", f"{q} no longer localises a naive (local-time) "
+                                        f"index with the pattern's country time zone before comparing it with the "
+                                        f"simulation date", rel, fn.lineno, q))
+    rel, fn = pm.find_function("abstract_modeling_classes/explainable_objects.py", "ExplainableHourlyQuantities.convert_to_utc")
+    res.instances += 1
+    t = norm(fn)
+    for need, what in (("tz_localize(local_timezone.value", "localisation in the given zone"),
+                       ("tz_convert('UTC')", "conversion to UTC"), ("nonexistent='shift_forward'", "skipped hours kept"),
+                       (".groupby(duplicates_df.index).sum()", "duplicated hours summed, not dropped")):
+        res.instances += 1
+        if need not in t:
+            res.findings.append(Finding("R-LOCAL", f"convert_to_utc :: {what}", f"convert_to_utc lost: {what}", rel,
+                                        fn.lineno, fn.name))
+    res.floor = 6
+    return res
+
+
+# ---------------------------------------------------------------------------------------------- C17 helpers
+@rule("R-PLACEHOLDER")
+def r_placeholder(E):
+    pm = E.pm
+    res = RuleResult("R-PLACEHOLDER", "when a builder passes a constant to its parent's constructor for a parameter and "
+                                      "some rule reads that attribute, the attribute is one of the builder's calculated "
+                                      "attributes (otherwise the job / server silently carries a zero)")
+    read_pairs = set()
+    for (c, x), cx in E.contexts().items():
+        if cx is not None:
+            read_pairs |= {(d, y) for (d, y, s) in cx.reads}
+    for c in pm.ALL:
+        seen = set()
+        for k in pm.mro(c):
+            sic = pm.super_init_call(k) if k in pm.classes and pm.init_of(k) is not None else None
+            if not sic:
+                continue
+            pk, mapping, node = sic
+            for p, expr in mapping.items():
+                is_const = isinstance(expr, ast.Call) and isinstance(expr.func, ast.Name) and expr.func.id in (
+                    "SourceValue", "SourceObject") and not any(isinstance(x, ast.Name) and x.id not in ("u", "Sources", "SourceValue", "SourceObject")
+                                                               for x in ast.walk(expr))
+                if not is_const or p in seen:
+                    continue
+                seen.add(p)
+                res.instances += 1
+                is_read = (c, p) in read_pairs
+                if is_read and p not in pm.calc(c):
+                    # a later assignment in a more derived constructor from a real parameter overrides the constant
+                    ai = pm.init_attrs(c).get(p)
+                    if ai is not None and ai.kind == "input" and ai.owner != pk and pm.issub(ai.owner, k):
+                        continue
+                    res.findings.append(Finding(
+                        "R-PLACEHOLDER", f"{c}.{p}",
+                        f"{k}.__init__ passes the constant {norm(expr)[:40]} for `{p}`, rules read {c}.{p}, but '{p}' is "
+                        f"not in {c}.calculated_attributes: the builder's derived value is never computed and the model "
+                        f"carries the placeholder", pm.path_of(k), node.lineno, f"{k}.__init__"))
+                elif len(res.samples) < 5:
+                    res.samples.append({"class": c, "parameter": p, "constant": norm(expr)[:40],
+                                        "read_by_a_rule": is_read, "calculated": p in pm.calc(c)})
+    res.floor = 18
+    return res
+
+
+@rule("R-SIB-JOB")
+def r_sib_job(E):
+    pm = E.pm
+    res = RuleResult("R-SIB-JOB", "plain jobs and service jobs agree: both expose `server`, both list it (and their "
+                                  "networks) among the objects that depend on them")
+    G = E.G()
+    for c in pm.ALL:
+        if not pm.issub(c, "JobBase"):
+            continue
+        res.instances += 1
+        out, cx = E.I.run_method(c, "server", Cx(c, "server")) if pm.find_method(c, "server")[1] is not None else (None, None)
+        srv = set()
+        if out is not None and out.k == "obj":
+            srv = set(out.cls)
+        elif pm.init_attrs(c).get("server") is not None:
+            srv = set(pm.link_targets(c, "server"))
+        if not srv:
+            res.findings.append(Finding("R-SIB-JOB", f"{c}.server", f"{c} exposes no `server`", pm.path_of(c)))
+            continue
+        miss = srv - G.get(c, set())
+        if miss:
+            res.findings.append(Finding(
+                "R-SIB-JOB", f"{c} dependants lack server",
+                f"{c}.modeling_objects_whose_attributes_depend_directly_on_me does not list its server ({sorted(miss)}): "
+                f"a change of the job's load is never propagated to the server", pm.path_of(c)))
+        if "Network" not in G.get(c, set()):
+            res.findings.append(Finding("R-SIB-JOB", f"{c} dependants lack networks",
+                                        f"{c} no longer lists its networks as dependants", pm.path_of(c)))
+        if len(res.samples) < 4:
+            res.samples.append({"job_class": c, "server_classes": sorted(srv), "dependants": sorted(G.get(c, set()))})
+    res.floor = 4
+    return res
+
+
+@rule("R-SERV")
+def r_serv(E):
+    pm = E.pm
+    res = RuleResult("R-SERV", "a server accounts for what is installed on it: occupied RAM / compute add the base "
+                               "consumption of every installed service to the server's own, and the server's jobs include "
+                               "the jobs of its installed services")
+    for c in pm.ALL:
+        if not pm.issub(c, "ServerBase"):
+            continue
+        services = [s for s in pm.ALL if pm.issub(s, "Service") and c in pm.link_targets(s, "server")]
+        for attr, base in (("occupied_ram_per_instance", "base_ram_consumption"),
+                           ("occupied_compute_per_instance", "base_compute_consumption")):
+            res.instances += 1
+            cx = E.contexts().get((c, attr))
+            if cx is None:
+                continue
+            anc = E.anc_of(c, attr)
+            need = {(c, base)} | {(s, base) for s in services}
+            miss = need - anc
+            if miss:
+                owner, fn = pm.find_method(c, "update_" + attr)
+                res.findings.append(Finding(
+                    "R-SERV", f"{c}.{attr} misses {sorted(m[0] for m in miss)}",
+                    f"{c}.{attr} does not add {sorted(f'{a}.{b}' for a, b in miss)}: the service's base consumption is "
+                    f"not reserved on the server", pm.path_of(owner), fn.lineno, f"{owner}.update_{attr}"))
+        res.instances += 1
+        out, cx = E.I.run_method(c, "jobs", Cx(c, "jobs"))
+        got = set(out.elem.cls) if out is not None and out.elem is not None else set()
+        want = set()
+        for s in services:
+            want |= {j for j in pm.ALL if pm.issub(j, "ServiceJob") and s in pm.link_targets(j, "service")}
+        if want - got:
+            res.findings.append(Finding("R-SERV", f"{c}.jobs misses {sorted(want - got)}",
+                                        f"{c}.jobs does not include the jobs of its installed services "
+                                        f"({sorted(want - got)}): their load is not placed on the server", pm.path_of("ServerBase")))
+        elif len(res.samples) < 3:
+            res.samples.append({"server_class": c, "installed_service_classes": services, "job_classes": sorted(got)})
+    res.floor = 9
+    return res
+
+
+# ---------------------------------------------------------------------------------------------- R-SEL / R-IDFLOW
+SEL_ALLOWED = {
+    "Storage.server": "guarded by `len(self.modeling_obj_containers) > 1 -> raise`: the collection is a singleton",
+    "optimize_mod_objs_computation_chain": "systems[0]: an object belongs to at most one system (R-GUARD)",
+    "ModelingUpdate.__init__": "systems[0]: an object belongs to at most one system (R-GUARD)",
+    "System.check_no_object_to_link_is_already_linked_to_another_system": "the one-system check itself",
+    "ModelingObject.mod_objs_computation_chain": "work-list (x = wl[0]; wl = wl[1:]): every element is processed; the "
+                                                 "order only permutes recomputations that R-ORDER shows independent",
+}
+
+
+def _hash_ordered_props(pm):
+    """names of properties (of model classes) whose value order derives from a set / from modeling_obj_containers"""
+    names = {"modeling_obj_containers", "contextual_modeling_obj_containers"}
+    changed = True
+    while changed:
+        changed = False
+        for cn in pm.classes:
+            if not pm.is_model(cn):
+                continue
+            for fn in pm.own_methods(cn):
+                if not is_property(fn) or fn.name in names:
+                    continue
+                t = norm(fn)
+                rets = [r.value for r in ast.walk(fn) if isinstance(r, ast.Return) and r.value is not None]
+                hashy = "set(" in t or "set()" in t
+                for r in rets:
+                    for a in ast.walk(r):
+                        if isinstance(a, ast.Attribute) and a.attr in names and isinstance(a.value, ast.Name):
+                            # returned as is, or filtered: inherits the order
+                            if norm(r) == norm(a) or isinstance(r, (ast.ListComp, ast.BinOp)):
+                                hashy = True
+                if hashy:
+                    names.add(fn.name)
+                    changed = True
+    names.discard("contextual_modeling_obj_containers")
+    return names
+
+
+@rule("R-SEL")
+def r_sel(E):
+    pm = E.pm
+    res = RuleResult("R-SEL", "a positional selection ([0], [-1], next(iter(..)), .pop()) from a collection whose order "
+                              "derives from a set or from the link registry only happens where the collection is a "
+                              "proven singleton")
+    hashy = _hash_ordered_props(pm)
+    for mod, (rel, tree, src) in sorted(pm.modules.items()):
+        for n in ast.walk(tree):
+            coll = None
+            if isinstance(n, ast.Subscript) and isinstance(n.slice, (ast.Constant, ast.UnaryOp)) and \
+                    isinstance(getattr(n.slice, "value", getattr(getattr(n.slice, "operand", None), "value", None)), int):
+                coll = n.value
+            elif isinstance(n, ast.Call) and isinstance(n.func, ast.Name) and n.func.id == "next" and n.args:
+                coll = n.args[0]
+            elif isinstance(n, ast.Call) and isinstance(n.func, ast.Attribute) and n.func.attr == "pop" and not n.args:
+                coll = n.func.value
+            if coll is None:
+                continue
+            # the collection is a hash-ordered property, or a local assigned from one, or set(...) / list(set(...))
+            fn = n
+            while fn is not None and not isinstance(fn, ast.FunctionDef):
+                fn = getattr(fn, "_parent", None)
+            hot = False
+            t = coll
+            if isinstance(t, ast.Call) and isinstance(t.func, ast.Name) and t.func.id in ("list", "iter", "sorted"):
+                if t.func.id == "sorted":
+                    continue
+                t = t.args[0] if t.args else t
+            if isinstance(t, ast.Attribute) and t.attr in hashy:
+                hot = True
+            if isinstance(t, ast.Call) and isinstance(t.func, ast.Name) and t.func.id == "set":
+                hot = True
+            if isinstance(t, ast.Name) and fn is not None:
+                for a in ast.walk(fn):
+                    if isinstance(a, ast.Assign) and any(isinstance(x, ast.Name) and x.id == t.id for x in a.targets):
+                        v = a.value
+                        if isinstance(v, ast.Attribute) and v.attr in hashy:
+                            hot = True
+                        if isinstance(v, ast.Call) and "set(" in norm(v):
+                            hot = True
+            if not hot:
+                continue
+            res.instances += 1
+            cls = fn
+            while cls is not None and not isinstance(cls, ast.ClassDef):
+                cls = getattr(cls, "_parent", None)
+            q = (f"{cls.name}.{fn.name}" if cls is not None else fn.name) if fn is not None else "<module>"
+            if q in SEL_ALLOWED:
+                ok = True
+                if q == "Storage.server":
+                    ok = any(isinstance(s, ast.If) and "len(self.modeling_obj_containers) > 1" in norm(s.test)
+                             and any(isinstance(x, ast.Raise) for x in s.body) for s in ast.walk(fn))
+                if ok:
+                    if len(res.samples) < 6:
+                        res.samples.append({"site": f"{rel}:{n.lineno} {q}", "selection": norm(n)[:60],
+                                            "singleton_because": SEL_ALLOWED[q]})
+                    continue
+            res.findings.append(Finding(
+                "R-SEL", f"{q} :: {norm(n)[:80]}",
+                f"{q} picks an element by position from `{norm(coll)[:50]}`, whose order depends on hashing / creation "
+                f"order of the link registry: with several elements the result changes between runs", rel, n.lineno, q))
+    res.breakdown = {"hash_ordered_properties": sorted(hashy)}
+    res.floor = 5
+    return res
+
+
+def _idish(e):
+    """does the expression denote an identifier / hash value?"""
+    if isinstance(e, ast.Attribute) and e.attr == "id":
+        return True
+    if isinstance(e, ast.Call) and isinstance(e.func, ast.Name) and e.func.id in ("id", "hash") and e.args:
+        return True
+    if isinstance(e, ast.Call) and "uuid" in norm(e.func):
+        return True
+    return False
+
+
+@rule("R-IDFLOW")
+def r_idflow(E):
+    pm = E.pm
+    res = RuleResult("R-IDFLOW", "identifiers (.id, id(), hash(), uuid) flow only into equality / membership tests, "
+                                 "dictionary keys and strings — never into arithmetic, ordering comparisons or sort keys "
+                                 "outside display code")
+    from .units import _is_display
+    loops = []
+    for mod, (rel, tree, src) in sorted(pm.modules.items()):
+        for n in ast.walk(tree):
+            if not (isinstance(n, (ast.Attribute, ast.Call)) and _idish(n)):
+                continue
+            fn = n
+            while fn is not None and not isinstance(fn, ast.FunctionDef):
+                fn = getattr(fn, "_parent", None)
+            if fn is not None and _is_display(rel, fn):
+                continue
+            res.instances += 1
+            q = fn.name if fn is not None else "<module>"
+            bad = None
+            x, par = n, getattr(n, "_parent", None)
+            while par is not None and not isinstance(par, (ast.stmt, ast.FunctionDef)):
+                if isinstance(par, ast.Compare) and any(isinstance(o, (ast.Lt, ast.Gt, ast.LtE, ast.GtE)) for o in par.ops):
+                    bad = f"ordering comparison `{norm(par)[:60]}`"
+                if isinstance(par, ast.BinOp) and not isinstance(par.op, (ast.Add,)) :
+                    bad = f"arithmetic `{norm(par)[:60]}`"
+                if isinstance(par, ast.BinOp) and isinstance(par.op, ast.Add) and not any(
+                        isinstance(s, (ast.JoinedStr, ast.Constant)) and (isinstance(s, ast.JoinedStr) or isinstance(s.value, str))
+                        for s in (par.left, par.right)) and not any(isinstance(y, ast.List) for y in (par.left, par.right)):
+                    if not (isinstance(par.left, ast.Attribute) or isinstance(par.right, ast.Attribute)):
+                        bad = f"arithmetic `{norm(par)[:60]}`"
+                if isinstance(par, ast.Call) and isinstance(par.func, ast.Name) and par.func.id in ("sorted", "min", "max"):
+                    bad = f"ordering call `{norm(par)[:60]}`"
+                if isinstance(par, ast.Call) and isinstance(par.func, ast.Attribute) and par.func.attr == "sort":
+                    bad = f"sort `{norm(par)[:60]}`"
+                if isinstance(par, ast.Lambda):
+                    gp = getattr(par, "_parent", None)
+                    if isinstance(gp, ast.keyword) and gp.arg == "key":
+                        bad = f"sort key `{norm(par)[:60]}`"
+                if isinstance(par, ast.Subscript) and par.slice is x and isinstance(par.value, (ast.Name, ast.Attribute)) \
+                        and isinstance(n, ast.Call) and n.func.id in ("id", "hash"):
+                    bad = f"index computed from a hash `{norm(par)[:60]}`"
+                if isinstance(par, (ast.JoinedStr, ast.FormattedValue)):
+                    break
+                x, par = par, getattr(par, "_parent", None)
+            if bad and not (isinstance(n, ast.Call) and n.func.id == "hash" and q == "__hash__"):
+                res.findings.append(Finding(
+                    "R-IDFLOW", f"{rel}:{q} :: {norm(n)[:40]} in {bad[:70]}",
+                    f"{q}: an identifier / hash value ({norm(n)[:40]}) is used in {bad}: results then depend on random "
+                    f"identifiers or the process hash seed", rel, n.lineno, q))
+    # listed, not alarmed: float accumulation over hash-ordered collections
+    hashy = _hash_ordered_props(pm)
+    for (c, x), cx in E.contexts().items():
+        if cx is None:
+            continue
+        owner, fn = pm.find_method(c, "update_" + x)
+        for n in ast.walk(fn):
+            if isinstance(n, ast.For) and isinstance(n.iter, ast.Attribute) and n.iter.attr in hashy and any(
+                    isinstance(s, ast.AugAssign) for s in ast.walk(n)):
+                loops.append(f"{owner}.update_{x}: for … in {norm(n.iter)}")
+    res.breakdown = {"float_accumulation_over_hash_ordered_collections (last-ulp hazard, listed not alarmed)": sorted(set(loops))}
+    res.samples = [{"note": "identifier uses are equality/membership tests, dict keys, strings or log messages"}]
+    res.floor = 60
+    return res
+
+
+# ---------------------------------------------------------------------------------------------- R-THREAD
+def _flow(fn):
+    """name -> parameters it derives from, data and control (assignments under a test depend on the test)"""
+    params = {a.arg for a in fn.args.args}
+    dep = {p: {p} for p in params}
+
+    def names(e):
+        out = set()
+        for x in ast.walk(e):
+            if isinstance(x, ast.Name) and x.id in dep:
+                out |= dep[x.id]
+        return out
+    for _ in range(4):
+        def walk(stmts, ctl):
+            for s in stmts:
+                if isinstance(s, (ast.Assign, ast.AugAssign)):
+                    src = names(s.value) | ctl
+                    tg = s.targets if isinstance(s, ast.Assign) else [s.target]
+                    for t in tg:
+                        for x in ast.walk(t):
+                            if isinstance(x, ast.Name):
+                                dep[x.id] = dep.get(x.id, set()) | src
+                elif isinstance(s, ast.If):
+                    c2 = ctl | names(s.test)
+                    walk(s.body, c2)
+                    walk(s.orelse, c2)
+                elif isinstance(s, ast.For):
+                    c2 = ctl | names(s.iter)
+                    for x in ast.walk(s.target):
+                        if isinstance(x, ast.Name):
+                            dep[x.id] = dep.get(x.id, set()) | names(s.iter)
+                    walk(s.body, c2)
+        walk(fn.body, set())
+    return dep, params, names
+
+
+@rule("R-THREAD")
+def r_thread(E):
+    pm = E.pm
+    res = RuleResult("R-THREAD", "every hourly-series builder threads start_date, pint_unit and each of its value "
+                                 "parameters into the frame it returns (directly or through the same-named parameter of "
+                                 "the builder it delegates to); every date_range starts at start_date and is hourly")
+    rel, tree = pm.module_tree(TB)
+    fns = {f.name: f for f in tree.body if isinstance(f, ast.FunctionDef)}
+    for name, fn in sorted(fns.items()):
+        dep, params, names = _flow(fn)
+        rets = [r for r in ast.walk(fn) if isinstance(r, ast.Return) and r.value is not None]
+        if not rets:
+            continue
+        flows = set()
+        for r in rets:
+            flows |= names(r.value)
+        for p in sorted(params):
+            res.instances += 1
+            if p not in flows:
+                res.findings.append(Finding(
+                    "R-THREAD", f"{name} drops {p}",
+                    f"{name}: parameter `{p}` does not reach the returned series: the builder ignores the requested "
+                    f"{'start date' if p == 'start_date' else 'unit' if p == 'pint_unit' else p}", rel, fn.lineno, name))
+        # delegation through same-named parameters
+        for c in _calls(fn):
+            if isinstance(c.func, ast.Name) and c.func.id in fns:
+                callee = fns[c.func.id]
+                cps = [a.arg for a in callee.args.args]
+                for i, a in enumerate(c.args):
+                    if i < len(cps) and cps[i] in params:
+                        res.instances += 1
+                        if norm(a) != cps[i]:
+                            res.findings.append(Finding(
+                                "R-THREAD", f"{name} -> {c.func.id}({cps[i]}={norm(a)[:20]})",
+                                f"{name} passes `{norm(a)[:30]}` as {c.func.id}'s `{cps[i]}` although it has a parameter of "
+                                f"that name", rel, c.lineno, name))
+                for k in c.keywords:
+                    if k.arg in params:
+                        res.instances += 1
+                        if norm(k.value) != k.arg:
+                            res.findings.append(Finding(
+                                "R-THREAD", f"{name} -> {c.func.id}({k.arg}={norm(k.value)[:20]})",
+                                f"{name} passes `{norm(k.value)[:30]}` as {c.func.id}'s `{k.arg}`", rel, c.lineno, name))
+        for c in _calls(fn):
+            if norm(c.func) == "pd.date_range":
+                res.instances += 1
+                kws = {k.arg: k.value for k in c.keywords}
+                fr = kws.get("freq")
+                if not (isinstance(fr, ast.Constant) and str(fr.value).lower() == "h") or norm(kws.get("start")) != "start_date":
+                    res.findings.append(Finding(
+                        "R-THREAD", f"{name} date_range",
+                        f"{name}: the time line is not `pd.date_range(start=start_date, …, freq='h')`: the series does "
+                        f"not start at the requested date or is not hourly", rel, c.lineno, name))
+            if norm(c.func) == "pd.DataFrame":
+                res.instances += 1
+                kws = {k.arg: norm(k.value) for k in c.keywords}
+                if "pint_unit" not in kws.get("dtype", "") or kws.get("columns") != "['value']" or "index" not in kws:
+                    res.findings.append(Finding("R-THREAD", f"{name} DataFrame",
+                                                f"{name}: the frame is not built with index=<the time line>, "
+                                                f"columns=['value'] and a pint dtype in pint_unit", rel, c.lineno, name))
+        if len(res.samples) < 8:
+            res.samples.append({"builder": name, "parameters_reaching_the_result": sorted(flows & params)})
+    res.floor = 40
+    return res
